@@ -16,6 +16,29 @@ class ClientRun(FullStack):
         self.sess_jobs = []          # session read jobs in creation order
         self.hold = set()            # read jobs whose execution / delivery the schedule decides
 
+    def before_bp_job(self, job):
+        # right before a block is undone a client asks by height for that block and the one below (still indexed: the
+        # answers are theirs); whatever that leaves in the by-height caches must not survive the reorganisation
+        if 'backup_block' not in job.name or not self.serving or 'a' not in self.clients or getattr(self, '_poking', False):
+            return
+        self._poking = True
+        try:
+            h = self.db.state.height
+            for hh in (h, h - 1):
+                if hh < 1:
+                    continue
+                rid = self.request('a', 'blockchain.transaction.id_from_pos', [hh, 0, True])
+                for _ in range(30):
+                    self.loop.run_until_idle()
+                    if rid in self.clients['a'].replies:
+                        break
+                    free = [j for j in self.session_jobs() if j not in self.hold]
+                    if not free:
+                        break
+                    free[0].deliver()
+        finally:
+            self._poking = False
+
     # ---- world changes
     def chain_slots(self):
         return {s for b in self.tree.chain(self.best) for s in b.slots}
@@ -40,7 +63,9 @@ class ClientRun(FullStack):
 
     def do_block(self, touch):
         base = self.chain_slots()
-        txs = [t for t in sorted(self.pool) if self.can_mine(t, base)][:1] if touch and self.pool else self.pick(touch, base)
+        # (every other block takes two transactions when it can: blocks with an odd number of transactions, coinbase included)
+        txs = [t for t in sorted(self.pool) if self.can_mine(t, base)][:(2 if self.nb % 2 else 1)] if touch and self.pool \
+            else self.pick(touch, base)
         self.nb += 1
         self.tree.add(self.nb, self.best, txs)
         self.prev_best, self.best = self.best, self.nb
